@@ -11,7 +11,7 @@
 //! point outside U into a finite set, a partial range) are model bounds (`vnd::model_bound`).
 //! Because U is symbolic, every 4-tuple of row offsets is covered.
 use core::ops::{Bound, RangeBounds};
-use std::io;
+use vnd::io;
 
 pub const NP: usize = 4;
 const ALL: u8 = (1 << NP) - 1;
@@ -192,7 +192,7 @@ impl RoaringBitmap {
         let mut b = [0u8; 2];
         r.read_exact(&mut b)?;
         if b[0] > ALL || b[1] > 1 {
-            return Err(io::Error::from(io::ErrorKind::InvalidData));
+            return Err(io::Error::InvalidData);
         }
         Ok(Self { bits: b[0], co: b[1] == 1 })
     }
